@@ -103,6 +103,8 @@ def replay_call(data):
 
 
 def replay(data):
+    if data.get("kind") == "ground":
+        return replay_ground(data)
     return replay_call(data)
 
 
@@ -114,6 +116,131 @@ def twin_check(run, family, jobs):
     run.extra.setdefault("reachability_twins", {})[family] = {"checked": len(res), "unreachable": bad}
     for b in bad:
         run.inconc(family, "%s(twin)" % b, "reachability twin did not reach the comparison: obligation may be vacuous")
+
+
+# ---- TV families: ground evaluation of grammar terms (array-valued results, nested operators, partial models) ----------
+def gen_ground(env, tier):
+    from engine.tv.grammar import Grammar, dedup
+    from engine.ref import refstruct as rs
+    g = Grammar(env, widths=(3,) if tier == "quick" else (1, 2, 4), quantifiers=False, uf=False)
+    l1 = dedup(g.level1())
+    l2 = dedup(g.level2(l1))
+    forms = [t for _, t in l1] + [t for _, t in l2][::(3 if tier == "quick" else 1)]
+    out = []
+    for f in forms:
+        fv = sorted(rs.free_vars(f), key=lambda x: x.symbol_name())
+        if not fv:
+            out.append((f, (), "total"))
+            continue
+        for variant in (0, 1, 2):
+            asg = []
+            for k, sym in enumerate(fv):
+                cs = g.const.get(sym.symbol_type(), [])
+                if not cs:
+                    asg = None
+                    break
+                asg.append((sym, cs[(variant + k * (variant + 1)) % len(cs)]))
+            if asg is None:
+                break
+            out.append((f, tuple(asg), "total"))
+        # partial assignment: first symbol only (completion on / off)
+        if len(fv) >= 2:
+            cs = g.const.get(fv[0].symbol_type(), [])
+            if cs:
+                out.append((f, ((fv[0], cs[1 % len(cs)]),), "partial-completion"))
+                out.append((f, ((fv[0], cs[1 % len(cs)]),), "partial-nocompletion"))
+    return out
+
+
+def check_ground(env, inst, timeout_ms=5000):
+    import z3
+    from pysmt.solvers.eager import EagerModel
+    from engine import blueprint as bp
+    from engine.ref import refstruct as rs
+    from engine.ref.tr_z3 import Z3Tr, Untranslatable
+    from engine.tv import driver as tv
+    f, asg, mode = inst
+    name = "ground-" + mode
+    rp = {"kind": "ground", "formula": bp.to_bp(f), "asg": [[bp.to_bp(k), bp.to_bp(v)] for k, v in asg], "mode": mode}
+    model = EagerModel(dict(asg), env)
+    if mode == "partial-completion":
+        # documented defaults exist for Bool / Int / Real / BV only
+        for sym in rs.free_vars(f):
+            ty = sym.symbol_type()
+            if sym not in dict(asg) and not (ty.is_bool_type() or ty.is_int_type() or ty.is_real_type() or ty.is_bv_type()):
+                return {"name": name, "status": "ok", "skipped": True}
+    try:
+        v = model.get_value(f, model_completion=(mode != "partial-nocompletion"))
+    except Exception as e:
+        if mode == "partial-nocompletion":
+            return {"name": name, "status": "ok", "nontrivial": True}      # raising is allowed without completion
+        # an evaluated Int/Real division by zero leaves a non-constant term: allowed to raise (unconstrained)
+        if any(t.node_type() == 62 for t in rs.subterms(f)):
+            return {"name": name, "status": "ok", "skipped": True}
+        return {"name": name, "status": "viol", "signature": "model-eval/raises:%s/%s" % (type(e).__name__, rs.shape(f)),
+                "describe": "EagerModel(%s).get_value(%s) raises %r" % (dict(asg), f.serialize()[:200], e), "replay": rp}
+    if not v.is_constant():
+        return {"name": name, "status": "viol", "signature": "model-eval/nonconstant/%s" % rs.shape(f),
+                "describe": "get_value(%s) = %s is not a constant" % (f.serialize()[:200], v.serialize()[:200]), "replay": rp}
+    if v.get_type() != f.get_type():
+        return {"name": name, "status": "viol", "signature": "model-eval/type/%s" % rs.shape(f),
+                "describe": "get_value(%s) = %s has type %s" % (f.serialize()[:200], v.serialize()[:100], v.get_type()), "replay": rp}
+    tr = Z3Tr()
+    try:
+        zf, zv = tr.tr(f), tr.tr(v)
+        prem = [tr.tr(k) == tr.tr(c) for k, c in asg]
+        if mode == "partial-completion":
+            m = env.formula_manager
+            for sym in rs.free_vars(f):
+                if sym not in dict(asg):
+                    ty = sym.symbol_type()
+                    d = m.Bool(False) if ty.is_bool_type() else m.Int(0) if ty.is_int_type() else \
+                        m.Real(0) if ty.is_real_type() else m.BV(0, ty.width) if ty.is_bv_type() else None
+                    if d is None:
+                        return {"name": name, "status": "ok", "skipped": True}
+                    prem.append(tr.tr(sym) == tr.tr(d))
+    except Untranslatable as e:
+        return {"name": name, "status": "inconc", "reason": str(e)}
+    st, mo, dt = tv.check_valid(zf == zv, timeout_ms, premises=prem + tr.defined)
+    res = {"name": name, "status": "ok", "queried": True, "t": dt, "nontrivial": True}
+    if st == "unsat":
+        ok_sat = True
+        if f.get_type().is_bool_type() and mode == "total":
+            try:
+                ok_sat = (model.satisfies(f) == v.is_true())
+            except Exception:
+                ok_sat = False
+        if not ok_sat:
+            return {"name": name, "status": "viol", "signature": "model-eval/satisfies/%s" % rs.shape(f),
+                    "describe": "satisfies(%s) disagrees with the value %s" % (f.serialize()[:200], v), "replay": rp}
+        res["sample"] = {"formula": f.serialize()[:120], "assignment": {str(k): str(c) for k, c in asg}, "mode": mode,
+                         "value": v.serialize()[:80], "verdict": "z3: value is the one the formula denotes"}
+        return res
+    if st == "sat":
+        return {"name": name, "status": "viol", "signature": "model-eval/value/%s" % rs.shape(f), "queried": True, "t": dt,
+                "describe": "EagerModel(%s).get_value(%s) = %s is not the denoted value (%s)" %
+                            ({str(k): str(c) for k, c in asg}, f.serialize()[:200], v.serialize()[:100], mode), "replay": rp}
+    return {"name": name + ":" + f.serialize()[:80], "status": "inconc", "reason": "unknown %s" % mo, "queried": True, "t": dt}
+
+
+def _register():
+    from engine.tv import driver as tv
+    tv.register("tv-ground", gen_ground, check_ground)
+
+
+_register()
+
+
+def replay_ground(data):
+    from engine import blueprint as bp
+    from engine.tv import driver as tv
+    env = tv.fresh_env()
+    f = bp.from_bp(data["formula"], env)
+    asg = tuple((bp.from_bp(k, env), bp.from_bp(v, env)) for k, v in data["asg"])
+    r = check_ground(env, (f, asg, data["mode"]), 20000)
+    if r["status"] == "viol":
+        return True, r["describe"]
+    return False, "status=%s %s" % (r["status"], r.get("reason", ""))
 
 
 def run(run, only=None):
@@ -135,6 +262,15 @@ def run(run, only=None):
 
     def describe(p, r):
         return "EagerModel.get_value on %s with assigned values %r disagrees with the reference evaluator" % (p["op"], r["args"])
+    if not only or "tv-ground" in only:
+        from engine.tv import driver as tv
+        tv.run_family(run, "tv-ground", run.tier)
+        run.bounds["tv-ground"] = ("C01 grammar terms of every sort (level 1 complete, level 2 stride; incl. array-valued "
+                                   "results and store chains) x 3 boundary-constant assignments + partial assignments with "
+                                   "and without completion; z3 decides 'value == denotation' (and, without completion, "
+                                   "for every completion)")
+    if only and "tv-ground" in only and len(only) == 1:
+        return
     run_xh_family(run, "xh-model-eval", jobs, describe, signature, "xh")
     twin_check(run, "xh-model-eval", jobs[::7])
     run.extra["states"] = run.obligations
